@@ -90,7 +90,7 @@ MANUAL = [
     ("C13", "inline_const_drops_still_referenced_definition", r"text_not_executable:ValueError:Unbound name", "inline_const=True drops Constant/initializer definitions that are still referenced by name (Loop trip count, initializers whose names need clean-up)"),
     ("C13", "inline_const_empty_list", r"text_not_executable:TranslationError:.*", "inline_const=True renders an empty 1-D constant as [], which the converter cannot type"),
     ("C13", "if_with_unused_outputs", r"text_not_executable:TranslationError:.*", "an If node whose outputs are all unused is exported as an `if` assigning dead variables, which the converter refuses"),
-    ("C13", "while_style_loop", r"export_raises:IndexError@onnx_export.py:_translate_loop", "Loop without trip count (script-derived while loop): IndexError in _translate_loop"),
+    ("C13", "loop_nested_in_if_branch", r"export_raises:IndexError@onnx_export.py:_translate_loop", "a for-style Loop nested inside an If branch: _translate_loop indexes an empty _name_remappings stack (IndexError)"),
     ("C13", "loop_with_condition_break_first", r"text_not_executable:TranslationError:.*", "Loop with a condition input is exported as `for ...: if not cond: break` with the break first, which the converter refuses"),
     ("C15", "optimize_renames_constant_tensor_of_argument", r"argument_mutated:optimize", "optimize(ModelProto) mutates its argument: the TensorProto of Constant 'value' attributes is shared with the IR and renamed"),
     ("C15", "convert_version_proto_drops_metadata", r"lost:(graph|node)\.metadata_props:convert_version", "convert_version(ModelProto) copies only the graph back: graph/node metadata_props are lost"),
